@@ -114,6 +114,7 @@ def run(ctx):
                        "distinct = (kind, crash point, died-at-point) combinations; traces = kill/restart cycles judged")
     ctx.notes["cases"] = len(obs)
     ctx.notes["killed_at_named_point"] = died
+    ctx.notes["kill_restart_cycles"] = sum(o.get("restarts", 0) for o in obs)
     ctx.notes["file_reads_by_concurrent_reader"] = sum(o.get("file_reads", 0) for o in obs)
     for o in obs[:3]:
         ctx.sample({"meta_case": {k: o[k] for k in ("kind", "point", "nth", "seed", "died_at_point", "ops", "loaded") if k in o}})
